@@ -38,7 +38,7 @@ prop("C01", ["TAB-1", "TAB-3", "TAB-4", "ENC-1", "ENC-2", "ENC-5", "ENC-7", "WID
      "bytes are emitted as opcode, post-byte, operand.",
      "that every grammar-valid operand string is classified into the right operand class, and value-level correctness for all 2^16 operand values beyond the width/sign facts.",
      ASM_ASSUME)
-prop("C02", ["TAB-2", "LAY-0", "LAY-1", "LAY-3", "LAY-5", "ENC-2", "ENC-3", "WID-1", "REL-3", "DIR-1", "EXP-1", "WID-9", "REL-5"],
+prop("C02", ["TAB-2", "LAY-0", "LAY-1", "LAY-3", "LAY-5", "ENC-2", "ENC-3", "WID-1", "REL-3", "DIR-1", "EXP-1", "WID-9", "REL-5", "ENC-7~undefined-symbol"],
      "table sizes equal opcode length plus operand bytes; per return path of every translate() the bytes emitted equal the size reported and max_size >= size; the passes of "
      "translate_statements run in the order expansion, collection, resolution, translation, sizing, addressing, fix-up, back-patch, each over all statements; the address pass is a single "
      "forward accumulation of code_pkg.size; every store into the symbol table is dominated by the redefinition check and undefined symbols raise; listing and image concatenate the same three fields.",
@@ -49,7 +49,7 @@ prop("C03", ["REL-1", "REL-3", "REL-5", "ENC-1", "ENC-3", "TAB-1", "TAB-2"],
      "that sums max_size over a window covering the displacement including the instruction itself, thresholds 127/128; label+n operands take their index through the address-expression predicate "
      "at all three sites; the PCR offset is target - own address - own size rendered at the chosen width; label,PCR offers post-bytes 8C/8D (9C/9D).",
      "numeric correctness at every distance and for every combination of mutually dependent unsized statements (only margins and identities).", ASM_ASSUME)
-prop("C04", ["EXP-1", "LAY-1", "LAY-3", "WID-3", "WID-6", "ENC-6", "ENC-7", "ESC-1", "REL-3", "REL-5", "WID-8", "DIR-4"],
+prop("C04", ["EXP-1", "LAY-1", "LAY-3", "WID-3", "WID-6", "ENC-6", "ENC-7", "ESC-1", "REL-3", "REL-5", "WID-8", "DIR-4", "WID-1~fix_addresses"],
      "each operator arm of ExpressionValue.resolve applies its own operator to (left, right) in that order and both operands are looked up independently; symbol collection precedes resolution "
      "over all statements (definition order irrelevant); undefined symbols raise; width predicates and two's-complement modulus follow the field width; statement-level handlers turn arithmetic errors "
      "(division by zero, out-of-range results) into a TranslationError.",
@@ -63,7 +63,7 @@ prop("C06", ["CAS-1~:(name|name-source|name-filter|source|field\\d+\\(\\w+\\)|fi
      "the reader consumes exactly the frames the writer produces: header signature, each header field read at the offset the writer stores it and delivered to the matching CoCoFile field, "
      "name length, where block search resumes, data blocks stepped over by exactly 4 + len + 2 with payload copied from offset 4, EOF frame length; writers never modify the data they are given.",
      "equality of data for all contents and lengths; tolerance of arbitrary foreign tapes.")
-prop("C07", ["DSK-1", "DSK-2", "DSK-3", "DSK-4", "DSK-5", "DSK-12", "DSK-13", "VF-8", "CAS-3", "DET-2", "DSK-8"],
+prop("C07", ["DSK-1", "DSK-2", "DSK-3", "DSK-4", "DSK-5", "DSK-12", "DSK-13", "VF-8", "CAS-3", "DET-2", "DSK-8", "DSK-7~granule_in_use"],
      "geometry constants and the granule->offset map for all 68 granules; directory entry layout of writer and reader against the Disk BASIC layout with bounded field writes; preamble/postamble "
      "read/write siblings agree on flags, offsets and lengths and on which file kind gets which; FAT links, terminator C0+sectors, reader masks; stream length computed identically by the three "
      "length functions (with and without trailer), sector and granule counts consistent for every length.",
@@ -86,7 +86,7 @@ prop("C11", ["CLI-1", "VF-1", "VF-3", "CAS-3", "CAS-1", "CAS-5", "DSK-2", "DSK-3
      "builds the container of its kind and adds that very object; cassette/disk blocks are dominated by the no-name guard; BinaryFile appends the data only; containers do not consume the data "
      "(the same object is written to several containers).",
      "that listing the produced image returns the program (C06/C07); END operand as entry address.")
-prop("C12", ["WID-1", "WID-3", "WID-8", "WID-5", "WID-6", "LAY-5", "ENC-4", "ENC-5", "ENC-7", "TAB-1", "TAB-2", "TAB-3", "TAB-4", "REL-1", "WID-9", "EXP-2"],
+prop("C12", ["WID-1", "WID-3", "WID-8", "WID-5", "WID-6", "LAY-5", "ENC-4", "ENC-5", "ENC-7", "TAB-1", "TAB-2", "TAB-3", "TAB-4", "REL-1", "WID-9", "EXP-2", "REL-3"],
      "modes the instruction lacks are rejected by every operand class; table cells exist only where the CPU has the mode; register recognition: every return path of the indexed encoders is realised "
      "by a grammar-valid operand only (probe spellings outside the grammar must raise); PSH/PUL/TFR/EXG reject unknown, own-stack and mixed-size registers; parse-time numeric limits; the width of "
      "`additional` at every sink against the mode's width.",
@@ -96,12 +96,12 @@ prop("C13", ["TERM-1", "ESC-1", "ESC-2", "CLI-1", "LAY-0", "TXT-2", "INC-1~(read
      "fixpoint over the resolved call graph leaves only ParseError/TranslationError out of Program.process; every pass is wrapped by a handler that converts any exception into a diagnostic naming "
      "the statement; parse-phase first/last-character accesses are dominated by emptiness checks; the CLI handlers exit non-zero before any save.",
      "termination/robustness on all texts beyond these structural arguments (implicit exceptions inside the parse phase other than the indexed-access pattern).", ASM_ASSUME)
-prop("C14", ["CAS-1~^(?!.*:(name-source|name-filter|source)$).*", "CAS-4", "CAS-3", "WID-10"],
+prop("C14", ["CAS-1~^(?!.*:(name-source|name-filter|source)$).*", "CAS-4", "CAS-3", "WID-10", "VF-9~write_binary_contents"],
      "on every path of every block writer: sync 55 3C, type 00/01/FF, length byte equal to the payload count and <= 255, payload fields in format order, checksum byte = (type + length + payload) mod 256 "
      "established by pairing every byte written with a checksum term, trailer 55; data payload byte i = data[i], continuation at the number of bytes written; file order leader, name-file, leader, "
      "data, EOF; only appends.",
      "nothing input-dependent: this property is decided completely under the stated assumptions.", ["data bytes are 0..255 and name characters are single-byte"])
-prop("C15", ["DSK-6", "DSK-7", "DSK-12", "DSK-13", "DSK-4", "VF-1", "DET-2", "DET-3", "CLI-3", "VF-5", "DSK-8", "VF-2"],
+prop("C15", ["DSK-6", "DSK-7", "DSK-12", "DSK-13", "DSK-4", "VF-1", "DET-2", "DET-3", "CLI-3", "VF-5", "DSK-8", "VF-2", "CLI-4~:(save|end):", "DSK-2~write_dir_entry:(nul|name-characters)"],
      "the fill order offers all 68 granules once; allocation only of free granules, exhaustion raises; directory scan covers at least 68 slots and a full directory raises; granule count = "
      "floor(stream/2304)+1 for every stream length; the image is rebuilt in memory before the host file is touched.",
      "exact granule counts for concrete sequences of additions.")
@@ -114,7 +114,7 @@ prop("C17", ["DET-1", "DET-2", "DET-3", "DET-4", "DET-5", "DET-6"],
      "shared default objects are never mutated; the source-line list is only read; no iteration over sets, no hash/id/time/random/environment reads in the core; no memoisation. Each rule carries "
      "an embedded bad/good canary pair evaluated on every run.",
      "nothing further under the assumption of insertion-ordered dicts.", ["dict insertion order (Python >= 3.7)"])
-prop("C18", ["TXT-1", "EXP-1", "LAY-1", "WID-3", "WID-8", "DIR-1", "REL-1", "REL-5", "ENC-7", "TXT-2", "LAY-3"],
+prop("C18", ["TXT-1", "EXP-1", "LAY-1", "WID-3", "WID-8", "DIR-1", "REL-1", "REL-5", "ENC-7", "TXT-2", "LAY-3", "LAY-5~get_binary_array"],
      "the mnemonic is upper-cased before lookup; the line pattern splits label/mnemonic/operands for any amount of white space; accumulator offsets are recognised by whole-string comparison "
      "(no substring tests on operand text); addresses are prefix-determined (single forward pass); one-byte width only for values <= 255.",
      "the metamorphic relations themselves (relocation, renaming, reformatting) for concrete programs.", ASM_ASSUME)
